@@ -376,6 +376,7 @@ def apply_reference(repo):
             _drop_self_assignments(repo.funcs[q].node)
             _thread_none_tests(repo.funcs[q].node)
     repo.inlined_local_functions = inline_local_functions(repo, ref)
+    repo.stdlib_equivalents = stdlib_equivalents(repo, ref)
     repo.suppress_forms = suppress_to_try(repo, ref)
     repo.records = expand_records(repo, ref)
     repo.struct_objects = expand_struct_objects(repo, ref)
@@ -1257,6 +1258,35 @@ def _fresh_stmt(src, like, owner):
                 z._parent = y
         top._parent = owner
     return out
+
+
+def stdlib_equivalents(repo, ref):
+    """two spellings the standard library defines as the same thing:
+    `inspect.isclass(E)` is `isinstance(E, type)` (inspect.py: `return isinstance(object, type)`);
+    `D.pop(K, None)` as a whole statement, D a plain attribute chain and K a name, is `if K in D: del D[K]` (dict.pop with a default
+    removes the key when present, does nothing when absent, and the result is discarded)"""
+    done = {}
+    for q, fi in repo.funcs.items():
+        if fi.is_lambda or q not in ref:
+            continue
+        for c in list(walk_own(fi.node)):
+            if isinstance(c, ast.Call) and isinstance(c.func, ast.Attribute) and c.func.attr == "isclass" and isinstance(c.func.value, ast.Name) \
+                    and len(c.args) == 1 and not c.keywords and getattr(c, "_parent", None) is not None:
+                rn = repo.resolve_name(fi.module, c.func.value.id)
+                if rn is not None and rn[0] == "extmodule" and rn[1] == "inspect":
+                    _install(c, ast.parse("isinstance(%s, type)" % ast.unparse(c.args[0]), mode="eval").body)
+                    done.setdefault(q, []).append("inspect.isclass")
+        for owner, field, blk in _blocks(fi.node):
+            for i, st in enumerate(blk):
+                if isinstance(st, ast.Expr) and isinstance(st.value, ast.Call) and isinstance(st.value.func, ast.Attribute) and st.value.func.attr == "pop" \
+                        and len(st.value.args) == 2 and not st.value.keywords and isinstance(st.value.args[1], ast.Constant) and st.value.args[1].value is None \
+                        and isinstance(st.value.args[0], ast.Name) and _chain(st.value.func.value) is not None:
+                    d_, k_ = ast.unparse(st.value.func.value), st.value.args[0].id
+                    new = _fresh_stmt("if %s in %s:\n    del %s[%s]" % (k_, d_, d_, k_), st, owner)[0]
+                    blk[i] = new
+                    _invalidate(owner)
+                    done.setdefault(q, []).append("pop(k, None)")
+    return done
 
 
 def suppress_to_try(repo, ref):
@@ -2602,8 +2632,15 @@ def inline_new_helpers(repo, full_ref):
         return done
     for hq, h in list(new_funcs.items()):
         a = h.node.args
-        if a.vararg or a.kwonlyargs:
+        if a.kwonlyargs:
             continue
+        # *args that the helper only hands on (`g(x, *args)`) is the surplus positional arguments of the inlined call, in place
+        vaname = a.vararg.arg if a.vararg else None
+        if vaname is not None:
+            vuses = [x for x in ast.walk(h.node) if isinstance(x, ast.Name) and x.id == vaname]
+            if a.kwarg or not vuses or not all(isinstance(x.ctx, ast.Load) and isinstance(getattr(x, "_parent", None), ast.Starred)
+                                               and isinstance(getattr(x._parent, "_parent", None), ast.Call) and x._parent in x._parent._parent.args for x in vuses):
+                continue
         # **kwargs that the helper only hands on (`g(x, **kwargs)`) is the caller's own `**kwargs` at the inlined call
         kwname = a.kwarg.arg if a.kwarg else None
         kwmode = None
@@ -2719,7 +2756,7 @@ def inline_new_helpers(repo, full_ref):
             # a decision tree of returns: as an expression only where the call is not a whole statement (there the statements
             # themselves are put in place, below)
             sites = [x for x in all_sites if x[3] in (None, "nested")]
-        if sites and len(hbody) == 1 and isinstance(hbody[0], ast.Return) and hbody[0].value is not None and not stored_params:
+        if sites and len(hbody) == 1 and isinstance(hbody[0], ast.Return) and hbody[0].value is not None and not stored_params and vaname is None:
             def simple_arg(e):
                 return isinstance(e, (ast.Name, ast.Constant)) or (isinstance(e, ast.Attribute) and simple_arg(e.value)) \
                     or (isinstance(e, ast.UnaryOp) and simple_arg(e.operand)) or (isinstance(e, ast.BinOp) and simple_arg(e.left) and simple_arg(e.right)) \
@@ -2789,6 +2826,9 @@ def inline_new_helpers(repo, full_ref):
                 extra = []
                 for p_, a_ in zip(call_params, c.args):
                     argmap[p_] = a_
+                surplus = list(c.args[len(call_params):])
+                if surplus and (vaname is None or not all(isinstance(x, (ast.Name, ast.Constant)) for x in surplus)):
+                    raise _Refuse("surplus positional arguments")
                 for k in c.keywords:
                     if k.arg is None:
                         continue
@@ -2802,6 +2842,8 @@ def inline_new_helpers(repo, full_ref):
                     argmap[k.arg] = k.value
                 prelude = []
                 mapping = {}
+                if vaname is not None:
+                    mapping[vaname] = "_VARARGS_"
                 if kwmode == "forward":
                     mapping[kwname] = stars[0].value.id
                 elif kwmode == "dict":
@@ -2858,6 +2900,12 @@ def inline_new_helpers(repo, full_ref):
                 mod = ast.Module(body=prelude + new, type_ignores=[])
                 ast.fix_missing_locations(mod)
                 fresh = _drop_noops(ast.parse(ast.unparse(_SubstNames(mapping).visit(mod)).replace("_TGT_", tgt or "_") or "pass").body) or [ast.Pass()]
+                if vaname is not None:
+                    for s_ in fresh:
+                        for y in ast.walk(s_):
+                            if isinstance(y, ast.Call) and any(isinstance(x, ast.Starred) and isinstance(x.value, ast.Name) and x.value.id == "_VARARGS_" for x in y.args):
+                                y.args = [z for x in y.args for z in ([ast.parse(ast.unparse(e), mode="eval").body for e in surplus]
+                                                                       if isinstance(x, ast.Starred) and isinstance(x.value, ast.Name) and x.value.id == "_VARARGS_" else [x])]
                 blk, idx = _block_of(st)
                 if blk is None:
                     raise _Refuse("call statement not in a block")
